@@ -357,6 +357,119 @@ func c08Faults() []fault {
 		it["w"] = val.Num("8")
 		return adapt.Op{Kind: adapt.OpBatchWrite, Batch: []adapt.BatchEntry{{Table: t, Put: ixItem("b2", "1", "x", "1", 1)}, {Table: t, Put: it}}}
 	})
+	// 14 requests that exceed one of DynamoDB's documented size limits (partition-key value > 2048 bytes, sort-key
+	// value > 1024 bytes - for the table and for every index -, nesting deeper than 32 levels, a number of more
+	// than 38 significant digits, an expression longer than 4 KB, an attribute name longer than 255 bytes for a
+	// key). DynamoDB refuses them; the library may accept them (no property obliges it to know the limits) -
+	// but IF it refuses one, at whatever internal step it notices, the refusal must leave no trace
+	long := func(n int) string {
+		b := make([]byte, n)
+		for i := range b {
+			b[i] = byte('a' + i%26)
+		}
+		return string(b)
+	}
+	limit := func(id string, last func(r *rand.Rand, t string, p val.Item) adapt.Op) {
+		fs = append(fs, fault{id: "size-limit/" + id, mayPass: true, mk: func(r *rand.Rand, t string, p, a val.Item) []adapt.Op {
+			return []adapt.Op{last(r, t, p)}
+		}})
+	}
+	for _, sz := range []int{1025, 2049, 70000} {
+		sz := sz
+		for _, attr := range []string{"g", "s"} {
+			attr := attr
+			limit(fmt.Sprintf("put-new-item-index-key-%s-%d", attr, sz), func(r *rand.Rand, t string, p val.Item) adapt.Op {
+				it := ixItem("szl", "1", "x", "1", 1)
+				it[attr] = val.Str(long(sz))
+				return adapt.Op{Kind: adapt.OpPut, Table: t, Item: it}
+			})
+			limit(fmt.Sprintf("put-overwrite-index-key-%s-%d", attr, sz), func(r *rand.Rand, t string, p val.Item) adapt.Op {
+				it := p.Clone()
+				it[attr] = val.Str(long(sz))
+				return adapt.Op{Kind: adapt.OpPut, Table: t, Item: it}
+			})
+			limit(fmt.Sprintf("update-set-index-key-%s-%d", attr, sz), func(r *rand.Rand, t string, p val.Item) adapt.Op {
+				return mon.SetUpdate(t, k(p), attr, val.Str(long(sz)))
+			})
+			limit(fmt.Sprintf("upsert-index-key-%s-%d", attr, sz), func(r *rand.Rand, t string, p val.Item) adapt.Op {
+				return mon.SetUpdate(t, val.Item{"h": val.Str("szl"), "r": val.Str("2")}, attr, val.Str(long(sz)))
+			})
+			limit(fmt.Sprintf("batch-valid-then-index-key-%s-%d", attr, sz), func(r *rand.Rand, t string, p val.Item) adapt.Op {
+				it := ixItem("b3", "1", "x", "1", 1)
+				it[attr] = val.Str(long(sz))
+				return adapt.Op{Kind: adapt.OpBatchWrite, Batch: []adapt.BatchEntry{{Table: t, Put: ixItem("b2", "1", "x", "1", 1)}, {Table: t, Del: k(p)}, {Table: t, Put: it}}}
+			})
+		}
+		for _, attr := range []string{"h", "r"} {
+			attr := attr
+			limit(fmt.Sprintf("put-primary-key-%s-%d", attr, sz), func(r *rand.Rand, t string, p val.Item) adapt.Op {
+				it := ixItem("szl", "1", "x", "1", 1)
+				it[attr] = val.Str(long(sz))
+				return adapt.Op{Kind: adapt.OpPut, Table: t, Item: it}
+			})
+			limit(fmt.Sprintf("batch-valid-then-primary-key-%s-%d", attr, sz), func(r *rand.Rand, t string, p val.Item) adapt.Op {
+				it := ixItem("szl", "1", "x", "1", 1)
+				it[attr] = val.Str(long(sz))
+				return adapt.Op{Kind: adapt.OpBatchWrite, Batch: []adapt.BatchEntry{{Table: t, Put: ixItem("b2", "1", "x", "1", 1)}, {Table: t, Put: it}}}
+			})
+		}
+	}
+	deep := func(n int) val.V {
+		v := val.Str("leaf")
+		for i := 0; i < n; i++ {
+			if i%2 == 0 {
+				v = val.List(v)
+			} else {
+				v = val.V{K: val.KM, M: map[string]val.V{"m": v}}
+			}
+		}
+		return v
+	}
+	for _, d := range []int{33, 40, 200} {
+		d := d
+		limit(fmt.Sprintf("put-nesting-%d", d), func(r *rand.Rand, t string, p val.Item) adapt.Op {
+			it := p.Clone()
+			it["deep"] = deep(d)
+			return adapt.Op{Kind: adapt.OpPut, Table: t, Item: it}
+		})
+		limit(fmt.Sprintf("update-set-nesting-%d", d), func(r *rand.Rand, t string, p val.Item) adapt.Op {
+			return mon.SetUpdate(t, k(p), "deep", deep(d))
+		})
+	}
+	for _, num := range []string{"123456789012345678901234567890123456789", "1E126", "1E-131", "0.00000000000000000000000000000000000000123456789012345678901234567890123456789"} {
+		num := num
+		limit("put-number-out-of-range-"+num[:5], func(r *rand.Rand, t string, p val.Item) adapt.Op {
+			it := p.Clone()
+			it["big"] = val.Num(num)
+			return adapt.Op{Kind: adapt.OpPut, Table: t, Item: it}
+		})
+		limit("update-add-number-out-of-range-"+num[:5], func(r *rand.Rand, t string, p val.Item) adapt.Op {
+			return mon.AddUpdate(t, k(p), "v", val.Num(num))
+		})
+	}
+	limit("update-expression-over-4KB", func(r *rand.Rand, t string, p val.Item) adapt.Op {
+		upd := "SET g = :g"
+		vals := val.Item{":g": val.Str("y")}
+		for i := 0; len(upd) < 4200; i++ {
+			upd += fmt.Sprintf(", attribute_with_a_long_name_%04d = :g", i)
+		}
+		return rawUpdate(t, k(p), upd, nil, vals)
+	})
+	limit("condition-expression-over-4KB", func(r *rand.Rand, t string, p val.Item) adapt.Op {
+		cond := "attribute_exists(h)"
+		for i := 0; len(cond) < 4200; i++ {
+			cond += fmt.Sprintf(" AND attribute_not_exists(attribute_with_a_long_name_%04d)", i)
+		}
+		it := p.Clone()
+		it["g"] = val.Str("y")
+		return rawCond(adapt.Op{Kind: adapt.OpPut, Table: t, Item: it}, cond, nil, nil)
+	})
+	limit("put-item-over-400KB", func(r *rand.Rand, t string, p val.Item) adapt.Op {
+		it := p.Clone()
+		it["g"] = val.Str("y")
+		it["blob"] = val.Str(long(410000))
+		return adapt.Op{Kind: adapt.OpPut, Table: t, Item: it}
+	})
 	return fs
 }
 
